@@ -313,8 +313,10 @@ class Loop:
         self.ca = ca
         self.model = quadrotor.derive_model()
         self.p = np.array([float(v) for v in self.model["p_defaults"].values()])
-        if list(self.model["p_defaults"].keys()) != [self.model["p"][i].name() for i in range(self.model["p"].shape[0])]:
-            raise MachineryError("quadrotor.derive_model(): p_defaults order differs from the parameter vector")
+        # scripts/rdd2_sim.py fills the parameter vector POSITIONALLY from p_defaults.values(); the harness does exactly
+        # the same.  If the dictionary order and the symbolic parameter vector disagree the plant runs with permuted
+        # parameters -- that is the simulator's behaviour and the closed loop below is judged with it (no exception here).
+        self.p_order_mismatch = list(self.model["p_defaults"].keys()) != [self.model["p"][i].name() for i in range(self.model["p"].shape[0])]
         self.xi = self.model["x_index"]
         self.C = extract_sim_constants(self.model["p_defaults"])
         eqs = {}
